@@ -7,5 +7,6 @@ CONSTANTS
   WR <- WriteBug
   TD <- ToDec
   NT <- NumText
+  NTL <- NumTextLoc
 INVARIANTS LawSwap
 CHECK_DEADLOCK FALSE
